@@ -59,7 +59,9 @@ def main():
         # the demo is already present in the worktree: never re-apply it
         segs = []
         for line in demo_cmd.split("\n"):
-            line = re.sub(r"\s#.*$", "", line)
+            line = re.sub(r"\s#\s*\([^)]*\)", " ", line)          # "# (already applied)" in the middle of a line
+            if "&&" not in line.split(" #", 1)[-1]:
+                line = re.sub(r"\s#.*$", "", line)
             for seg in line.split("&&"):
                 seg = seg.strip()
                 if seg and not ("git apply" in seg and "demo" in seg) and not seg.startswith("#"):
